@@ -219,21 +219,9 @@ func vTraceSX(tr []vStep) vsx {
 	return vL(items...)
 }
 
-func driveC12(t *testing.T, out *vEmitter) {
-	e := vNewEnv(t, vEnvCfg{oidc: true, redis: true, mod: func(o *options.Options) {
-		o.Cookie.Refresh = time.Hour
-		o.Providers[0].OIDCConfig.InsecureSkipNonce = true
-		o.InjectRequestHeaders = append(o.InjectRequestHeaders, options.Header{Name: "X-Forwarded-Access-Token",
-			Values: []options.HeaderValue{{ClaimSource: &options.ClaimSource{Claim: "access_token"}}}})
-	}})
-	// warm the provider's key set so that /jwks is not part of any schedule
-	{
-		b := e.newBrowser("https://app.example.com")
-		b.seedSession("user@example.com", time.Second, 30)
-		b.get("/warm")
-	}
-	// ---- systematic DFS over the schedules of n requests with a preemption bound ----
-	explore := func(n int, bound int, maxSchedules int, label string, signOutTid int) {
+
+// vExplore: systematic DFS over the schedules of n requests with a preemption bound.
+func vExplore(t *testing.T, out *vEmitter, e *vEnv, n int, bound int, maxSchedules int, label string, signOutTid int) {
 		var prefix []int // choice indices to replay
 		count := 0
 		for {
@@ -291,14 +279,38 @@ func driveC12(t *testing.T, out *vEmitter) {
 			prefix = append(append([]int(nil), chosen[:next]...), chosen[next]+1)
 		}
 		out.Stat("schedules_"+label, count)
+}
+
+func vSchedEnv(t *testing.T) *vEnv {
+	e := vNewEnv(t, vEnvCfg{oidc: true, redis: true, mod: func(o *options.Options) {
+		o.Cookie.Refresh = time.Hour
+		o.Providers[0].OIDCConfig.InsecureSkipNonce = true
+		o.InjectRequestHeaders = append(o.InjectRequestHeaders, options.Header{Name: "X-Forwarded-Access-Token",
+			Values: []options.HeaderValue{{ClaimSource: &options.ClaimSource{Claim: "access_token"}}}})
+	}})
+	// warm the provider's key set so that /jwks is not part of any schedule
+	{
+		b := e.newBrowser("https://app.example.com")
+		b.seedSession("user@example.com", time.Second, 30)
+		b.get("/warm")
 	}
-	explore(2, vPick(3, 99), vPick(400, 20000), "2req", -1)
-	explore(3, vPick(2, 3), vPick(300, 6000), "3req", -1)
-	// a sign-out racing a refreshing request (C11)
-	explore(2, vPick(3, 99), vPick(300, 5000), "signout", 1)
+	return e
+}
+
+// vExploreSignOutRaces: a sign-out racing a refreshing request, with rotating and with reusable
+// refresh tokens (shared by C11 and C12).
+func vExploreSignOutRaces(t *testing.T, out *vEmitter, e *vEnv) {
+	vExplore(t, out, e, 2, vPick(3, 99), vPick(300, 5000), "signout", 1)
 	vReusableTokens = true // a provider that does not rotate refresh tokens out
-	explore(2, vPick(3, 99), vPick(300, 5000), "signout-reusable", 1)
+	vExplore(t, out, e, 2, vPick(3, 99), vPick(300, 5000), "signout-reusable", 1)
 	vReusableTokens = false
+}
+
+func driveC12(t *testing.T, out *vEmitter) {
+	e := vSchedEnv(t)
+	vExplore(t, out, e, 2, vPick(3, 99), vPick(400, 20000), "2req", -1)
+	vExplore(t, out, e, 3, vPick(2, 3), vPick(300, 6000), "3req", -1)
+	vExploreSignOutRaces(t, out, e)
 
 	// ---- sequential behaviours: provider variants ----
 	vC12Sequential(t, out)
